@@ -198,6 +198,8 @@ def _dispatch(S, d, keep):
         if keep is not None:
             keep.append(o)
         return {"obj": o, "bank": o.bank, "bic": o.bic, "nat": _try(o.validate_national_checksum)}
+    if fn == "bban_check":
+        return S.BBAN(d["country"], d["value"]).validate_national_checksum()
     if fn == "algo":
         from schwifty.checksum import algorithms  # noqa: PLC0415
 
